@@ -253,9 +253,33 @@ def _by_path(ctx, prog):
             prev = [v for k, v in r.env.items() if v.op == "loopout" and
                     v.args[1] == lid and v.args[3].op == "elem"]
             okp = okp and len(prev) == 1 and prev[0].args[3].args[0] is POSES
+            whyp = "step term not recognised"
+            if okp:
+                # |t(cur) - t(prev)| with prev_0 = poses[0], prev := cur
+                pv = prev[0]
+                cur = pv.args[3]
+                pvar = T("loopvar", pv.args[0], lid, pv.args[2])
+                TR = T("tuple", T("slice", tm.NONE, const(3), tm.NONE),
+                       const(3))
+                step = path.args[2]
+                nrm = [x for x in step.walk()
+                       if is_call_to(x, "numpy.linalg.norm")]
+                d = nrm[0].args[1][0] if len(nrm) == 1 and nrm[0].args[1] \
+                    else None
+                init_ok = pv.args[2] is tm.sub(POSES, const(0))
+                diff_ok = d is not None and d.op == "binop" and \
+                    d.args[0] == "Sub" and {d.args[1], d.args[2]} == {
+                        tm.sub(cur, TR), tm.sub(pvar, TR)}
+                okp = init_ok and diff_ok
+                whyp = (f"previous pose starts as {fmt(pv.args[2])}"
+                        if not init_ok else f"step is {fmt(d)[:90]}")
             ctx.ob("C10.4", f, okp,
-                   "meters/consecutive: each step adds the distance to the "
-                   "immediately preceding pose", key="C10.4:path:step")
+                   "meters/consecutive: each step adds |t_i - t_(i-1)|, the "
+                   "distance to the immediately preceding pose (starting "
+                   "from pose 0)" if okp else
+                   f"meters/consecutive: the accumulated quantity is not the "
+                   f"travelled path |t_i - t_(i-1)|: {whyp}",
+                   key="C10.4:path:step")
     # ---------------- all pairs
     r = Interp(prog).run(f, {"all_pairs": const(True)})
     apps = [e for e in r.of_kind("call") if e.data.get("mutates_recv")
